@@ -1,5 +1,6 @@
 import SslModel.Lemmas.FoldSim
 import SslModel.Lemmas.NoCtl
+import SslModel.Thm.C04
 /-!
 # C04 — the folding pass as a whole preserves the reference semantics
 
@@ -1580,6 +1581,104 @@ theorem fold_correct_unfolded (g : CEnv) (env : Env) (e e' : Expr) (f : Nat) (σ
   rcases h0 f' hle with ⟨σ', h1⟩ | h1
   · rw [hr] at h1; exact absurd h1 (hnf σ')
   · exact h1.symm.trans hr
+
+/-! ## the errors the pass reports at parse time are errors the operation raises whenever it is evaluated -/
+
+theorem ofExec_err {r : Except Sig Val} {err : ExecErr} (h : ofExec r = .error (.exec err)) : r = .error (.err err) := by
+  unfold ofExec at h
+  split at h
+  · split at h <;> simp [unsup] at h
+  · next e => simp only [Except.error.injEq, FErr.exec.injEq] at h; subst h; rfl
+  · simp [unsup] at h
+
+theorem ofInt_eq_zero_of_i64 (k : Int) (h : i64 k = 0) : BitVec.ofInt 64 k = 0#64 := by
+  unfold i64 at h
+  apply BitVec.eq_of_toInt_eq
+  rw [h]; rfl
+
+/-- a binary operator: with two constant operands the reported error is the operator's own answer on them; with a
+    constant right operand only (`x / 0`, `x % 0`, a shift outside 0..=63) it is the answer for EVERY int on the left -/
+theorem foldBin_error_justified (op : BinOp) (a' b' : Expr) (err : ExecErr)
+    (h : foldBin op a' b' = .error (.exec err)) :
+    (isConst a' = true ∧ isConst b' = true ∧ binScalar op (valOf a') (valOf b') = .error (.err err)) ∨
+    (∀ x : I64, binScalar op (.int x) (valOf b') = .error (.err err)) := by
+  unfold foldBin at h
+  split at h
+  · next hcc =>
+    simp only [Bool.and_eq_true] at hcc
+    exact Or.inl ⟨hcc.1.2, hcc.2, ofExec_err h⟩
+  · right
+    intro x
+    split at h
+    · next k hncc =>
+      split at h
+      · next hk =>
+        simp only [Except.error.injEq, FErr.exec.injEq] at h; subst h
+        simp only [valOf, ofInt_eq_zero_of_i64 k hk]
+        exact (C04.division_by_constant_zero x).1
+      · simp at h
+    · next k hncc =>
+      split at h
+      · next hk =>
+        simp only [Except.error.injEq, FErr.exec.injEq] at h; subst h
+        simp only [valOf, ofInt_eq_zero_of_i64 k hk]
+        exact (C04.division_by_constant_zero x).2
+      · simp at h
+    · next k hncc =>
+      split at h
+      · next hk =>
+        simp only [Except.error.injEq, FErr.exec.injEq] at h; subst h
+        simp only [valOf]
+        exact (C04.shift_by_constant_out_of_range x _ hk).1
+      · simp at h
+    · next k hncc =>
+      split at h
+      · next hk =>
+        simp only [Except.error.injEq, FErr.exec.injEq] at h; subst h
+        simp only [valOf]
+        exact (C04.shift_by_constant_out_of_range x _ hk).2
+      · simp at h
+    · simp at h
+
+/-- indexing: the reported error is `IndexOutOfBounds`, and indexing ANY array of that many elements (any string
+    equal to the constant one) with that constant fails with it -/
+theorem foldAt_error_justified (a' i' : Expr) (err : ExecErr) (h : foldAt a' i' = .error (.exec err)) :
+    (∃ es k, a' = .array es ∧ i' = .litInt k ∧
+      ∀ (t : Ty) (vs : List Val), vs.length = es.length →
+        atVal (.arr t vs) (.int (BitVec.ofInt 64 k)) = .error (.err err)) ∨
+    (∃ s k, a' = .litStr s ∧ i' = .litInt k ∧ atVal (.str s) (.int (BitVec.ofInt 64 k)) = .error (.err err)) := by
+  unfold foldAt at h
+  split at h
+  · next es k =>
+    left
+    refine ⟨es, k, rfl, rfl, fun t vs hl => ?_⟩
+    split at h
+    · split at h
+      · next j hj =>
+        split at h
+        · simp at h
+        · next hnone =>
+          simp only [Except.error.injEq, FErr.exec.injEq] at h; subst h
+          simp only [atVal, hl]
+          simp only [i64] at hj
+          rw [hj]
+          have : vs[j]? = none := by
+            rw [List.getElem?_eq_none_iff] at hnone ⊢; omega
+          simp only [this]
+      · next hnone =>
+        simp only [Except.error.injEq, FErr.exec.injEq] at h; subst h
+        simp only [atVal, hl]
+        simp only [i64] at hnone
+        rw [hnone]
+    · split at h
+      · simp at h
+      · next hr =>
+        simp only [Except.error.injEq, FErr.exec.injEq] at h; subst h
+        exact C04.index_constant_out_of_range t vs _ (by rw [hl]; simpa only [i64] using hr)
+  · next s k =>
+    right
+    exact ⟨s, k, rfl, rfl, ofExec_err h⟩
+  · simp at h
 
 /-- the hypotheses are satisfiable by a program on which the pass does something: constants are
     propagated through a name into a block, an operator is folded, a branch is pruned, a constant
